@@ -177,7 +177,8 @@ def _raw_abs(raw, base):
 
 
 def _snapshot_program(p):
-    return tuple((n, c.is_finished, id(c._result), len(c.arguments)) for n, c in p.commands.items())
+    return (p.working_dir, tuple(sorted(p.command_library)),
+            tuple((n, c.is_finished, id(c._result), len(c.arguments), tuple((a.name, repr(a.value)[:80]) for a in c.arguments)) for n, c in p.commands.items()))
 
 
 def _freeze(v):
